@@ -951,7 +951,7 @@ def bounded_codecs(tier):
 
 
 def extra_checks(tier, seed):
-    return {'bounded': [bounded_codecs(tier)], 'lemmas': [scan_request_handlers()]}
+    return {'bounded': [bounded_codecs(tier)], 'lemmas': [scan_request_handlers()] + codec_lemmas()}
 
 
 # ------------------------------------------------------------------------------------------------ framing / loop
@@ -1426,8 +1426,10 @@ ASSUMPTIONS += [
     'send_packet failing with SFTPNoConnection / SFTPConnectionLost is represented by their base class SFTPError '
     'at call sites (no caller distinguishes the two)',
     'StreamReader.readexactly(n) returns exactly n bytes or raises IncompleteReadError / OSError',
-    'codec round trips (SFTPAttrs, SFTPName, SFTPVFSAttrs, SFTPLimits, SFTPRanges) are a bounded stand-in: every '
-    'flag combination of each version is executed on the real code with boundary values, not proved for all values',
+    'codec round trips: discharged in contracts/c14_codecs.py (see the three `codecs, ...` entries below for what '
+    'is proved, what stays bounded and what is trusted); the executed round trip (specs/sftp_codec_check.py, every '
+    'flag combination of each version with boundary values, plus objects carrying fields a version cannot send) '
+    'is kept as an additional cross-check and is still labelled bounded',
 ]
 # the harness cannot build a bare exception instance; the same code is cross-checked inlined in _process_packet
 sftp_error_encode.no_replay = True
@@ -1521,3 +1523,11 @@ def scan_request_handlers():
     return {'name': 'C14.sftp.SFTPServerHandler._process_*#scan(callbacks-only-after-the-whole-body-is-decoded)',
             'verdict': 'proved' if n and not problems else 'refuted', 'backend': 'AST scan', 'detail': problems[:10],
             'handlers': n, 'replayed': False}
+
+
+# codec contracts (SFTPLimits / SFTPVFSAttrs / SFTPName / SFTPAttrs encode + decode against enc_spec) live in a
+# separate module written against the same property id
+import sys as _sys             # noqa: E402
+_sys.modules.pop(__name__.rsplit('.', 1)[0] + '.c14_codecs', None)     # re-register its Specs on every (re)load
+from .c14_codecs import *      # noqa: F401,F403,E402
+ASSUMPTIONS += CODEC_NOTES
